@@ -48,23 +48,32 @@ func C10_response_template() {
 			determinate = false // leading zero: numerically 101, left open
 		}
 	case 4: // Upgrade
-		switch vChoose("upgrade", 3) {
+		switch vChoose("upgrade", 5) {
 		case 0:
 			upgrade = ""
 			valid = false
 		case 1:
 			upgrade = "upgrade: WebSocket"
+		case 3: // optional white space is SP or HTAB (RFC 7230), in any mix
+			upgrade = "Upgrade:\twebsocket \t"
+		case 4: // one arbitrary byte of white-space-like kind next to the value: only SP and HTAB are ignored
+			c := vU8("wsbyte")
+			vAssume(vOr(c == ' ', vOr(c == '\t', vOr(c == 0x0b, vOr(c == 0x0c, c == 0xa0)))))
+			upgrade = "Upgrade: websocket" + string([]byte{c})
+			valid = vConcrete(vIte(vOr(c == ' ', c == '\t'), 1, 0)) == 1
 		case 2:
 			upgrade = "Upgrade: websockets"
 			valid = false
 		}
 	case 5: // Connection
-		switch vChoose("connection", 3) {
+		switch vChoose("connection", 4) {
 		case 0:
 			connection = ""
 			valid = false
 		case 1:
 			connection = "CONNECTION:  upgrade "
+		case 3:
+			connection = "Connection: \tUpgrade\t "
 		case 2:
 			connection = "Connection: close"
 			valid = false
